@@ -18,7 +18,8 @@
   Supercells: `occ_replicate_lift` / `occ_replicate_fold` (full, no guard): every unit-cell occurrence appears in the
   supercell once for every image and every supercell occurrence folds back; `supercell_count_counterexample`: in a
   narrow cell (D < width < 2D) the COUNT relation is false (1 match in the unit cell, 4 in the 1×2×1 supercell).
-  NOT proved: the count relation |Occ(supercell)| = a·b·c·|Occ(unit)| under the guard width > 2D.  The link "search result = Occ" is what the correspondence run and the
+  The count relation |Occ(supercell)| = a·b·c·|Occ(unit)| under the guard width > 2D is proved in Props/C03Count.lean
+  (`occ_replicate_count`).  The link "search result = Occ" is what the correspondence run and the
   metamorphic oracle of harness/props/c03.py validate.
 -/
 import MofunModel.Proofs.FindCompleteGroup
@@ -187,10 +188,11 @@ theorem occ_replicate_fold (inp : FindInput) (a b c : Nat) (hlen : inp.elems.len
   rigid_replicate_fold inp a b c hlen epsSq g' n' h
 
 /-
-  NOT proved: the count form  #{keys of Occ(replicate S a b c)} = a·b·c · #{keys of Occ(S)}  under the guard
-  "every perpendicular width > 2·(diameter + 2·atol)".  It needs, beyond lift/fold, that lifts into different images
-  are different atom groups and that an atom group of the unit cell has a single realisation (image vectors
-  determined by the atoms) — both consequences of the guard; below the guard both fail, as the next example shows.
+  The count form  #{keys of Occ(replicate S a b c)} = a·b·c · #{keys of Occ(S)}  under the guard "every perpendicular
+  width > 2·(diameter + 2·atol)" is proved in Props/C03Count.lean (`occ_replicate_count`).  Beyond lift/fold it needs that
+  an atom group of the unit cell has a single realisation (image vectors determined by the atoms) and that lifts into
+  different images are different atom groups — both consequences of the guard; below the guard both fail, as the next
+  example shows.
 -/
 
 /-- the narrow cell of the known finding C03-supercell-two-images-one-group: 1.70 × 1.50 × 1.50 Å, a C–O pair
